@@ -146,6 +146,7 @@ pub fn configs(tier: Tier) -> Vec<Box<dyn Config>> {
     let q = tier == Tier::Quick;
     let mut v: Vec<Box<dyn Config>> = Vec::new();
     v.push(Box::new(super::rehash::RehashGrammar { tier }));
+    v.push(Box::new(Conversions));
     v.push(Box::new(super::widebattery::WideBattery { tier, part: super::widebattery::Part::Lookup }));
     v.push(long_chain(Plan::Zero, tier));
     v.push(long_chain(Plan::Max, tier));
@@ -200,4 +201,141 @@ pub fn configs(tier: Tier) -> Vec<Box<dyn Config>> {
         v.push(seeded_plan(Plan::Tail, tier, false, 3));
     }
     v
+}
+
+// ---------------------------------------------------------------------------
+// Conversions from arrays: `HashMap::from([(K, V); N])` and `HashSet::from([T; N])` (default hasher; the result
+// does not depend on the hash values): every array of length 0..=5 over three keys, repeated keys included.
+// The map must equal the last-value-wins reference with the first key of each run of equal keys kept, every
+// superseded key and value must be dropped exactly once.
+// ---------------------------------------------------------------------------
+
+pub struct Conversions;
+
+const CONV_ZERO: Baseline = Baseline { live_elems: 0, live_blocks: 0, live_bytes: 0, block_idx: 0, reg_idx: 0 };
+
+fn conv_one<const N: usize>(ids: [u8; N]) -> Result<(), String> {
+    use crate::env::{self, CheckAlloc};
+    env::reset();
+    let what = || format!("From<[_; {N}]> with keys {:?}", ids);
+    {
+        let arr: [(TKey, TVal); N] = std::array::from_fn(|i| (TKey::make(ids[i], 100 + i as u32), TVal::make(200 + i as u32)));
+        let m: hashbrown::HashMap<TKey, TVal, hashbrown::DefaultHashBuilder, CheckAlloc> = hashbrown::HashMap::from(arr);
+        let mut model: Vec<(u8, u32, u32)> = Vec::new();
+        for (i, &id) in ids.iter().enumerate() {
+            match model.iter_mut().find(|e| e.0 == id) {
+                Some(e) => e.2 = 200 + i as u32,
+                None => model.push((id, 100 + i as u32, 200 + i as u32)),
+            }
+        }
+        model.sort_unstable();
+        let mut got: Vec<(u8, u32, u32)> = m.iter().map(|(k, v)| (k.id, k.tok(), v.tok())).collect();
+        got.sort_unstable();
+        if got != model || m.len() != model.len() {
+            return Err(format!("HashMap {}: holds {:?} (len {}), expected {:?}", what(), got, m.len(), model));
+        }
+        for e in &model {
+            if m.get(&KeyRef(e.0)).map(|v| v.tok()) != Some(e.2) {
+                return Err(format!("HashMap {}: get({}) does not return the last value", what(), e.0));
+            }
+        }
+        crate::inv::check_structure_public(&m.verif_dump()).map_err(|e| format!("HashMap {}: {e}", what()))?;
+        let mut m = m;
+        for e in &model {
+            if m.remove(&KeyRef(e.0)).is_none() || m.contains_key(&KeyRef(e.0)) {
+                return Err(format!("HashMap {}: key {} is still found after remove (stored twice?)", what(), e.0));
+            }
+        }
+        if !m.is_empty() {
+            return Err(format!("HashMap {}: {} entries left after removing every key once", what(), m.len()));
+        }
+    }
+    end_of_run_checks(&CONV_ZERO).map_err(|e| format!("HashMap {}: {e}", what()))?;
+    env::reset();
+    {
+        let arr: [TKey; N] = std::array::from_fn(|i| TKey::make(ids[i], 100 + i as u32));
+        let s: hashbrown::HashSet<TKey, hashbrown::DefaultHashBuilder, CheckAlloc> = hashbrown::HashSet::from(arr);
+        let mut model: Vec<(u8, u32)> = Vec::new();
+        for (i, &id) in ids.iter().enumerate() {
+            if !model.iter().any(|e| e.0 == id) {
+                model.push((id, 100 + i as u32));
+            }
+        }
+        model.sort_unstable();
+        let mut got: Vec<(u8, u32)> = s.iter().map(|k| (k.id, k.tok())).collect();
+        got.sort_unstable();
+        if got != model || s.len() != model.len() {
+            return Err(format!("HashSet {}: holds {:?} (len {}), expected {:?}", what(), got, s.len(), model));
+        }
+        crate::inv::check_structure_public(&s.verif_dump()).map_err(|e| format!("HashSet {}: {e}", what()))?;
+        let mut s = s;
+        for e in &model {
+            if !s.remove(&KeyRef(e.0)) || s.contains(&KeyRef(e.0)) {
+                return Err(format!("HashSet {}: key {} is still found after remove (stored twice?)", what(), e.0));
+            }
+        }
+    }
+    end_of_run_checks(&CONV_ZERO).map_err(|e| format!("HashSet {}: {e}", what()))
+}
+
+fn conv_all<const N: usize>(count: &mut u64) -> Result<(), (Vec<u8>, String)> {
+    let total = 3usize.pow(N as u32);
+    for code in 0..total {
+        let mut c = code;
+        let ids: [u8; N] = std::array::from_fn(|_| {
+            let d = (c % 3) as u8;
+            c /= 3;
+            d
+        });
+        *count += 1;
+        match crate::env::catch(|| conv_one(ids)) {
+            Ok(Ok(())) => {}
+            Ok(Err(m)) => return Err((ids.to_vec(), m)),
+            Err(m) => return Err((ids.to_vec(), format!("unexpected panic: {m}"))),
+        }
+    }
+    Ok(())
+}
+
+fn conv_replay(ids: &[u8]) -> Result<(), String> {
+    fn go<const N: usize>(ids: &[u8]) -> Result<(), String> {
+        let a: [u8; N] = std::array::from_fn(|i| ids[i]);
+        match crate::env::catch(|| conv_one(a)) {
+            Ok(r) => r,
+            Err(m) => Err(format!("unexpected panic: {m}")),
+        }
+    }
+    match ids.len() {
+        0 => go::<0>(ids),
+        1 => go::<1>(ids),
+        2 => go::<2>(ids),
+        3 => go::<3>(ids),
+        4 => go::<4>(ids),
+        5 => go::<5>(ids),
+        _ => Err("MACHINERY: bad replay length".into()),
+    }
+}
+
+impl Config for Conversions {
+    fn label(&self) -> String {
+        "from-array-conversions".into()
+    }
+    fn run(&self) -> crate::report::ConfigReport {
+        use serde_json::json;
+        let t0 = std::time::Instant::now();
+        let mut rep = crate::report::ConfigReport { label: self.label(), mode: "enum(arrays of length 0..=5 over 3 keys)".into(), exhaustive: true, ..Default::default() };
+        let mut n = 0u64;
+        let r = conv_all::<0>(&mut n).and_then(|_| conv_all::<1>(&mut n)).and_then(|_| conv_all::<2>(&mut n)).and_then(|_| conv_all::<3>(&mut n)).and_then(|_| conv_all::<4>(&mut n)).and_then(|_| conv_all::<5>(&mut n));
+        rep.states = n;
+        rep.executions = 2 * n;
+        if let Err((ids, m)) = r {
+            rep.violations.push(crate::report::Viol { config: self.label(), message: m, replay: json!({"array": ids}) });
+        }
+        rep.wall_s = t0.elapsed().as_secs_f64();
+        rep
+    }
+    fn replay(&self, rp: &serde_json::Value) -> Result<(), String> {
+        let ids: Vec<u8> = serde_json::from_value(rp["array"].clone()).map_err(|e| format!("MACHINERY: bad replay: {e}"))?;
+        conv_replay(&ids)
+    }
 }
